@@ -244,7 +244,10 @@ def mk_text_dumper(E, st, x=0):
     ci = E.db.class_by_name["TimePointDumper"]
     r = st.alloc("obj", ci, fresh=False)
     st.obj(r).slots.update({
-        "num_expanded_year_digits": x, "_timepoint_parser": None, "_time_designator": "T",
+        "num_expanded_year_digits": x, "_time_designator": "T",
+        # get_time_zone() builds a default TimePointParser lazily; it is given one up front
+        # (construction of the regex tables is the real constructor's, read via mk_text_parser)
+        "_timepoint_parser": mk_text_parser(E, st, x=2, assumed=None),
         "_rec_formats": _to_engine(E, st, real._rec_formats)})
     return r
 
@@ -323,3 +326,36 @@ def _sfp_cases():
 
 contract("ghost:strftime_strptime_round_trip", use_at_calls=False, opaque=["dby"],
          cases=_sfp_cases(), check_frames=False)
+
+
+# ---------------------------------------------------------------- literal zone in a dump format (C06)
+LITERAL_ZONES = [("Z", 0, 0), ("+01", 1, 0), ("-0330", -3, -30), ("+05:45", 5, 45),
+                 ("-00:30", 0, -30), ("+14:00", 14, 0), ("-12", -12, 0), ("+0000", 0, 0)]
+
+
+def _lz_cases():
+    from .shapes import mk_timepoint
+    out = []
+    DF = {"cal": ("CCYY-MM-DD", "CCYYMMDD"), "ord": ("CCYY-DDD", "CCYYDDD"),
+          "week": ("CCYY-Www-D", "CCYYWwwD")}
+    for d in ("cal", "ord", "week"):
+        for (lit, zh, zm) in LITERAL_ZONES:
+            ext = ":" in lit or lit in ("Z", "+01", "-12")
+            basic = ":" not in lit
+            for style in ([0] if ext else []) + ([1] if basic else []):
+                fmt = DF[d][style] + ("Thh:mm:ss" if style == 0 else "Thhmmss") + lit
+
+                def build(E, st, d=d, fmt=fmt, zh=zh, zm=zm):
+                    p = mk_timepoint(E, st, "p", d, "hms", whole=True, ned=0)
+                    return {"p": p, "dumper": mk_text_dumper(E, st, 0),
+                            "parser": mk_text_parser(E, st, x=0, assumed=None),
+                            "fmt": fmt, "zh": zh, "zm": zm}
+                out.append(Case("%s|%s" % (d, fmt), build,
+                                requires=["normal24(p)", "1 <= p._year and p._year <= 9998"]))
+    return out
+
+
+contract("ghost:dump_with_literal_zone", use_at_calls=False, opaque=["dby"],
+         cases=_lz_cases(), check_frames=False)
+from . import REGISTRY as _REG  # noqa
+_REG["ghost:dump_with_literal_zone"].modes = ["gregorian"]
